@@ -167,6 +167,8 @@ def _signature(case, clauses, out_kind):
         sig.update(_text_profile(case))
         sig["collect"] = case["style"]["collect"]
         sig["rejected_as"] = out_kind or "loaded"
+        # valid apart from the pinned rule paramOnlyInUnscanned (known finding F14), as TLC classified the file
+        sig["used_param_only_where_the_loader_does_not_scan"] = "ValidLoads:unscannedParam" in clauses
         sig["supplied_param_only_in_included_part"] = _param_only_in_part(case["f"])
         sig["nested_include"] = any(k in case["f"]["parts"] for k in ("opsN", "sched", "docs"))
         sig["param_in_index_body_or_template_file"] = bool((case["f"]["ibody"]["p"] and case["f"]["indices"]) or (case["f"]["tkind"] and case["f"]["tbody"]["p"]))
